@@ -32,6 +32,7 @@ REPLAYS = VERIF / "replays"
 KNOWN_FILE = VERIF / "known_findings.txt"
 GUARD = "rustls_rcgen_verif"
 
+FIELD_SENS = int(os.environ.get("VERIF_FIELD_SENS", "2048"))
 FEATURES = {"nocrypto": [], "ring": ["ring"], "parse": ["parse"]}
 
 
@@ -85,7 +86,7 @@ class Result:
 # --------------------------------------------------------------------------- parsing
 
 _CHECK_RE = re.compile(
-    r"^Check \d+: (?P<name>\S+)\n\s+- Status: (?P<status>\w+)\n\s+- Description: \"(?P<desc>.*)\"\n(?:\s+- Location: (?P<loc>.*)\n)?",
+    r"^Check \d+: (?P<name>[^\n]+)\n\s+- Status: (?P<status>\w+)\n\s+- Description: \"(?P<desc>.*)\"\n(?:\s+- Location: (?P<loc>.*)\n)?",
     re.M,
 )
 
@@ -158,6 +159,10 @@ class KaniRunner:
         if feats:
             cmd += ["--features", ",".join(feats)]
         cmd += extra
+        if "--only-codegen" not in extra:
+            # CBMC tracks arrays element-wise (and so constant-propagates their contents during symbolic
+            # execution) only up to this many elements; the default 64 is smaller than a certificate.
+            cmd += ["-Z", "unstable-options", "--cbmc-args", "--max-field-sensitivity-array-size", str(FIELD_SENS)]
 
         def limits():
             os.setsid()
